@@ -24,13 +24,18 @@ def run(ctx):
     # replayed: every such script with <= 1 call (quick) / <= 2 calls, a seeded sample of the longer ones
     # (one replayed segment = one child process + one RocksDB open, ~0.2-0.7 CPU-s)
     short = [s for s in cover if ncalls(s) <= (1 if q else 2)]
-    scripts = short + cap(ctx, [s for s in cover if ncalls(s) > (1 if q else 2)], 70 if q else 300)
+    scripts = short + cap(ctx, [s for s in cover if ncalls(s) > (1 if q else 2)], 50 if q else 300)
     # sequence-exhaustive over a one-node / one-relationship alphabet: every operation sequence,
     # every crash boundary (no VIEW: histories are not merged)
     allseq = ctx.tlc_gen("MC_Persist", gen(invs=INVS, maxops=2 if q else 3, maxhist=6 if q else 7, nodeids="{1}", labels="LS1",
                                            view="", emit="ACTION_CONSTRAINT EmitRec"),
                          "allseq", workers=WORKERS, timeout=1800)
-    scripts += cap(ctx, allseq, 30 if q else 200)
+    scripts += cap(ctx, allseq, 25 if q else 200)
+    # every crash-free sequence of <= 2 (quick) / <= 3 calls over that alphabet, shut down cleanly and recovered:
+    # every ordered pair of operations on one entity (create-delete, create-update, delete-create, ...)
+    scripts += ctx.tlc_gen("MC_Persist", gen(crash="FALSE", invs=INVS, maxops=2 if q else 3, maxhist=5 if q else 6, nodeids="{1}", labels="LS1",
+                                             view="", emit="ACTION_CONSTRAINT EmitRec"),
+                           "pairs", workers=WORKERS, timeout=1800)
     # longer random histories with several crashes
     scripts += ctx.tlc_gen("MC_Persist", gen(invs=INVS + " SimEmit", maxops=8, maxhist=16, labels="LS3", ends="Ends2", view="", constraint=""),
                            "walks", simulate=(8 if q else 40, 120), workers=4)
